@@ -112,6 +112,76 @@ def soup(rng, pieces=None):
     return ''.join(soup_piece(rng, open_tags) for _ in range(n))
 
 
+ATTRN_ODD = ['a}b', '}', '{', 'x:y:z', ':', 'a{', '{ns}local', 'xmlns', 'xmlns:p', '{{x}y', 'a:b', '}{', 'x}', 'xml:lang', 'A:B']
+UNTERMINATED = ['<!--x', '<!-- a -', '<a href="v', "<a href='v w", '<a href=v', '<a b', '<a', '<', '</a', '</', '<?php echo', '<?', '<![CDATA[x', '<![CDATA[x]]',
+                '<!DOCTYPE html', '<!', '<![if', '&#12', '&#x4', '&amp', '&', '<script>x</scr', '<textarea>a</textarea', '<p/', '<br /', '<a b="1"/',
+                '<o{p}q {x="', '<a a}b=']
+TERMINATORS = ['>', '">', "'>", '-->', '?>', ']]>', ';', '/>', ' >', 'ipt>', '']
+
+
+def nested_selfclosing(rng):
+    """self-closing non-void elements inside same-named ancestors: `<p><div><p/>x</div>y</p>` — handle_startendtag
+    pushes the tag and pops to the innermost element of that name"""
+    out = []
+    stack = []
+    for _ in range(rng.choice([2, 3, 4, 6, 9])):
+        r = rng.random()
+        t = rng.choice(stack) if stack and rng.random() < 0.7 else rng.choice(['p', 'div', 'a', 'b', 'li', 'x-y', 'a:b', 'o{p}q', 'td'])
+        if rng.random() < 0.15:
+            t = t.upper()
+        at = ''.join(' ' + rand_attr(rng) for _ in range(rng.choice([0, 0, 1])))
+        if r < 0.4:
+            out.append('<%s%s>' % (t, at))
+            stack.append(t.lower())
+        elif r < 0.7:
+            out.append('<%s%s%s/>' % (t, at, rng.choice(['', ' '])))
+        elif r < 0.9 and stack:
+            out.append('</%s>' % stack.pop(rng.randrange(len(stack))))
+        else:
+            out.append(rng.choice(['x', ' ', 'text', '&amp;']))
+    return ''.join(out)
+
+
+def odd_attr_names(rng):
+    """attribute names holding braces and colons (QName splits at them)"""
+    out = []
+    for _ in range(rng.choice([1, 2, 3])):
+        attrs = []
+        for _ in range(rng.choice([1, 2, 3])):
+            n = rng.choice(ATTRN_ODD)
+            r = rng.random()
+            attrs.append(n if r < 0.3 else '%s="%s"' % (n, rng.choice(['', 'v', '{u}w', '&amp;', 'a}b'])) if r < 0.8 else "%s=%s" % (n, rng.choice(['v', '{', '}'])))
+        out.append('<%s %s%s' % (rng.choice(['a', 'p', 'br', 'img', 'a:b']), ' '.join(attrs), rng.choice(['>', '/>', ' >'])))
+        out.append(rng.choice(['', 'x', '</a>']))
+    return ''.join(out)
+
+
+def boundary_html(rng, boundary=None):
+    """a construct that is still open where a read() ends: `boundary` characters of tidy filler, then an unterminated
+    construct that starts up to its own length before the boundary, then (perhaps) its end and more markup"""
+    c = rng.choice(UNTERMINATED)
+    if boundary is None:
+        return soup(rng, 2) + c + rng.choice(['', rng.choice(TERMINATORS) + soup(rng, 2)])
+    k = rng.randrange(0, len(c) + 2)
+    filler = []
+    n = 0
+    while n < boundary:
+        piece = rng.choice(['<p>text</p>', 'x' * 50, '<b>b</b> ', 'caf&eacute; ', '<br>', '\n'])
+        filler.append(piece)
+        n += len(piece)
+    head = ''.join(filler)[:max(0, boundary - k)]
+    return head + c + rng.choice(['', rng.choice(TERMINATORS) + soup(rng, 3)])
+
+
+def pressure_html(rng):
+    r = rng.random()
+    if r < 0.5:
+        return nested_selfclosing(rng)
+    if r < 0.7:
+        return odd_attr_names(rng)
+    return boundary_html(rng)
+
+
 def valid_html(rng, depth=0, budget=None):
     """a tidy HTML fragment: every non-void element closed, attributes quoted"""
     if budget is None:
@@ -202,8 +272,10 @@ def gen_xml_tree(rng, allow_internal_entities=True):
     elem = {'k':'e', 'name':[prefix, local], 'ns':[[prefix, uri]], 'attrs':[[[prefix, local], [piece...]]], 'kids':[node]}
     node = elem | {'k':'t', 'pieces':[piece]} | {'k':'c', 'text':s} | {'k':'pi', 'target':s, 'data':s} | {'k':'cdata','text':s}
     piece = ['raw', s] | ['ent', name, value] | ['num', 'd'|'x', s(one char)] | ['ient', name] (internal entity, text only)
+          | ['xent', name] (external general entity declared in the internal subset ('xentities': [[name, sysid, pubid|None]]):
+            never fetched, the reference contributes nothing; text only)
     """
-    doc = {'decl': None, 'doctype': None, 'entities': [], 'prolog': [], 'epilog': []}
+    doc = {'decl': None, 'doctype': None, 'entities': [], 'xentities': [], 'prolog': [], 'epilog': []}
     r = rng.random()
     if r < 0.3:
         doc['decl'] = ['1.0', rng.choice([None, 'utf-8', 'UTF-8', 'iso-8859-1', 'utf-16', 'us-ascii', 'windows-1252', 'x-bogus']), rng.choice([-1, -1, 0])]
@@ -216,6 +288,9 @@ def gen_xml_tree(rng, allow_internal_entities=True):
         if allow_internal_entities and rng.random() < 0.5:
             for nme in rng.sample(['e1', 'foo', 'Bar'], rng.randrange(1, 3)):
                 doc['entities'].append([nme, rng.choice(['bar', 'x y', 'é', '', '&#233;t&#233;', 'a&amp;b'])])
+        if allow_internal_entities and rng.random() < 0.25:
+            for nme in rng.sample(['ext', 'X2'], rng.randrange(1, 3)):
+                doc['xentities'].append([nme, rng.choice(['f', 'http://example.org/e.xml', 'x.dtd']), rng.choice([None, None, '-//x//y'])])
 
     def misc():
         out = []
@@ -230,6 +305,7 @@ def gen_xml_tree(rng, allow_internal_entities=True):
     doc['epilog'] = misc()
     budget = [rng.choice([2, 5, 10, 20, 40])]
     ents = [e[0] for e in doc['entities']]
+    xents = [e[0] for e in doc['xentities']]
 
     def pieces(in_attr):
         out = []
@@ -240,6 +316,8 @@ def gen_xml_tree(rng, allow_internal_entities=True):
             elif r < 0.75:
                 n, v = rng.choice(HTML_ENT)
                 out.append(['ent', n, v])
+            elif xents and not in_attr and r > 0.95:
+                out.append(['xent', rng.choice(xents)])
             elif r < 0.9 or not ents:
                 c = rng.choice(['A', '<', '&', 'é', '\U0001F600', '\t', '\n', ' ', '\r', ' '])
                 out.append(['num', rng.choice('dx'), c])
@@ -317,7 +395,7 @@ def _piece_src(p, in_attr, q='"'):
         return '&%s;' % p[1]
     if p[0] == 'num':
         return '&#%d;' % ord(p[2]) if p[1] == 'd' else '&#x%x;' % ord(p[2])
-    if p[0] == 'ient':
+    if p[0] in ('ient', 'xent'):
         return '&%s;' % p[1]
     raise ValueError(p)
 
@@ -342,6 +420,8 @@ def _piece_val(doc, p):
         return p[2]
     if p[0] == 'ient':
         return _ent_value(doc, p[1])
+    if p[0] == 'xent':
+        return ''
 
 
 def write_xml(doc, rng=None):
@@ -405,8 +485,9 @@ def write_xml(doc, rng=None):
         elif sysid:
             ext = ' SYSTEM "%s"' % sysid
         internal = ''
-        if doc['entities']:
-            internal = ' [' + ''.join('<!ENTITY %s "%s">' % (n, v) for n, v in doc['entities']) + ']'
+        if doc['entities'] or doc.get('xentities'):
+            internal = ' [' + ''.join('<!ENTITY %s "%s">' % (n, v) for n, v in doc['entities']) + ''.join(
+                '<!ENTITY %s %s>' % (n, 'PUBLIC "%s" "%s"' % (pb, sy) if pb else 'SYSTEM "%s"' % sy) for n, sy, pb in doc.get('xentities', [])) + ']'
         out.append('<!DOCTYPE %s%s%s>' % (nme, ext, internal))
         out.append(rng.choice(['', '\n']))
     node(doc['root'])
